@@ -172,14 +172,16 @@ Definition v_fixed := {| v_alias := AliasCopy; v_ctx := CtxShared; v_order := Id
 Definition v_swapped := {| v_alias := AliasCopy; v_ctx := CtxShared; v_order := DataFirst |}.
 
 Definition entity := (str * option (str * str))%type.   (* id, at most one (predicate, target) *)
-Definition dkey_eqb (a b : str * str) : bool := str_eqb (fst a) (fst b) && str_eqb (snd a) (snd b).
-Definition dlookup := @lookup (str * str) (option (str * str)) dkey_eqb.
-Definition dset := @set (str * str) (option (str * str)) dkey_eqb.
+(* the latest-version key of a dataset is built from the dataset and the INTERNAL id of the entity: a version
+   stored under an id whose URI record was lost is not found again under the identifier's next id *)
+Definition dkey_eqb (a b : str * N) : bool := str_eqb (fst a) (fst b) && N.eqb (snd a) (snd b).
+Definition dlookup := @lookup (str * N) (option (str * str)) dkey_eqb.
+Definition dset := @set (str * N) (option (str * str)) dkey_eqb.
 
 Record world := {
   wns : nsworld;
   wid : idstate;
-  wdata : list ((str * str) * option (str * str));  (* committed latest version per (dataset, entity id) *)
+  wdata : list ((str * N) * option (str * str));  (* committed latest version per (dataset, internal id) *)
   wstored : list (str * N)   (* (identifier, internal id) pairs carried by durable entity versions and their
                                 reference keys: entity id, predicate, target; sorted by id, no duplicates *)
 }.
@@ -222,22 +224,22 @@ Fixpoint assert_all (L : N) (us : list str) (st : idstate) : idstate * outcome :
     entity of the driver differs from its stored predecessor, duplicates inside one
     batch are not generated.  Returns the ids put on the entities, the number of
     entities new to the dataset and the pending data writes. *)
-Fixpoint run_ents (L : N) (ds : str) (data : list ((str * str) * option (str * str)))
+Fixpoint run_ents (L : N) (ds : str) (data : list ((str * N) * option (str * str)))
          (ents : list entity) (st : idstate)
-  : idstate * outcome * list N * nat * list ((str * str) * option (str * str)) :=
+  : idstate * outcome * list N * nat * list ((str * N) * option (str * str)) :=
   match ents with
   | [] => (st, OcOk, [], O, [])
   | (id, r) :: ents' =>
     match assert_id L id st with
     | (s1, RId rid isnew) =>
-      let prev := dlookup (ds, id) data in
+      let prev := dlookup (ds, rid) data in
       let ni := if isnew then 1%nat else match prev with None => 1%nat | Some _ => 0%nat end in
       let us := if isnew then refs_of r
                 else (match prev with Some pr => refs_of pr | None => [] end) ++ refs_of r in
       match assert_all L us s1 with
       | (s2, OcOk) =>
         let '(s3, oc, ids, n, pd) := run_ents L ds data ents' s2 in
-        (s3, oc, rid :: ids, (ni + n)%nat, ((ds, id), r) :: pd)
+        (s3, oc, rid :: ids, (ni + n)%nat, ((ds, rid), r) :: pd)
       | (s2, oc) => (s2, oc, [rid], O, [])
       end
     | (s1, RErrEmpty) => (s1, OcErrEmpty, [], O, [])
